@@ -1,0 +1,20 @@
+//go:build verif
+
+// Contracts for package core (interface-level contracts used at call sites), checked by /verif/govc.
+// Comment-only: no code.
+package core
+
+// Ghost attributes of a schedule object: the number of tokens it has left (negative = unknown yet).
+//@ global leftOf map[Schedule]int
+
+//@ iface Schedule.Next
+//@ ensures [left-drops] imp(ok && old(leftOf[self]) > 0, leftOf[self] == old(leftOf[self]) - 1)
+//@ ensures [exhausted] imp(old(leftOf[self]) == 0, !ok && leftOf[self] == 0)
+//@ modifies leftOf[self]
+
+//@ iface Schedule.Left
+//@ ensures result == leftOf[self]
+//@ modifies leftOf[self]
+
+//@ iface Schedule.Start
+//@ modifies leftOf[self]
